@@ -542,7 +542,7 @@ pub fn def(tier: Tier) -> PropertyDef {
         rule: "streams mixing messages from the repository example files (dlt, asc/CAN), trigger shapes (non-verbose ids of tests/non_verbose*.xml incl. too short payloads and unknown ECU, SOME/IP service/method ids of tests/fibex1.xml, Muniic 13-argument messages, SYS/JOUR lines for tests/rewrite.cfg, FLST/FLDA/FLFI transfers, data packages also from other applications/contexts) and arbitrary traffic, through plugins_process_msgs with every subset/order of {NonVerbose, SomeIp, CAN, Muniic, Rewrite, FileTransfer(keepFLDA on/off; unrestricted / apid / apid+ctid / ctid)} built by factory::get_plugin from the repository configs; oracle: output = input minus FLDA of the configured application/context when configured; index, reception time, ECU, payload, lifecycle, standard header, existing extended header untouched; timestamp only with Rewrite. Anonymise: populations of 1..8 ECUs x up to 40 APIDs/CTIDs; mapping function + injective, times untouched, detector on original and anonymised trace gives the same partition, starts, ends, counts. Non-trivial: >=1 message text decoded and >=2 plugins; anonymise: >=2 ECUs and >=2 lifecycles.",
         assumptions: vec!["plugins are configured from /repo/tests (fibex1.xml, non_verbose*.xml, muniic, rewrite.cfg); the repository FIBEX describes no CAN channel: the CAN plugin is configured with /verif/data/can_fibex/can1.xml (one channel, 5 frames: odd-sized signed/unsigned signals in both byte orders, float, text table, multiplexed PDU, a byte field that cannot be decoded) and fed with frames produced by the ASC converter", "control responses are not part of the anonymise stream (their payload is rewritten on purpose)"],
         subs: vec![
-            sub("decoder_plugins", tier.pick(150_000, 2_000_000), case, decoders).rates(&[("text_decoded", 0.3), ("ge2_plugins", 0.5), ("flda_dropped", 0.02), ("data_package_outside_of_the_plugins_restriction", 0.01), ("ext_header_filled", 0.03), ("timestamp_rewritten", 0.03), ("someip_text", 0.02), ("muniic_text", 0.02), ("nonverbose_text", 0.05), ("rewrite_text", 0.03), ("hostile_trigger", 0.5), ("can_frame_decoded", 0.03)]).shrink_iters(300).boxed(),
+            sub("decoder_plugins", tier.pick(150_000, 2_000_000), case, decoders).rates(&[("text_decoded", 0.3), ("ge2_plugins", 0.5), ("flda_dropped", 0.02), ("data_package_outside_of_the_plugins_restriction", 0.004), ("ext_header_filled", 0.03), ("timestamp_rewritten", 0.03), ("someip_text", 0.02), ("muniic_text", 0.02), ("nonverbose_text", 0.05), ("rewrite_text", 0.03), ("hostile_trigger", 0.5), ("can_frame_decoded", 0.03)]).shrink_iters(300).boxed(),
             sub("anonymise", tier.pick(150_000, 2_000_000), prop::collection::vec(aev(3, 4), 1..80), anonymise).rates(&[("ge2_ecus", 0.5), ("gt3_lifecycles", 0.3), ("msg_without_ext_header", 0.3)]).boxed(),
             crate::props::binsubs::c19_sub(tier),
             sub("anonymise_many_ids", tier.pick(8_000, 100_000), prop::collection::vec(aev(8, 40), 50..400), anonymise).boxed(),
